@@ -99,6 +99,9 @@ def call_std_path(I, target, full, args, node):
         if hasattr(x, "id") and hasattr(y, "id"):
             return x.id == y.id
         return I.havoc("ptr::eq")
+    if key in ("cmp::max", "cmp::min", "std::cmp::max", "std::cmp::min") and len(a) == 2:
+        used("std::cmp::" + name)
+        return int_method(I, a[0], name, [a[1]], node)
     if key == "Default::default":
         return I.havoc("Default::default")
     if name == "default" and ty in I.p.structs:
@@ -910,6 +913,21 @@ def char_len_utf8(c):
                        z3.If(z3.ULT(z, 0x10000), z3.BitVecVal(3, 64), z3.BitVecVal(4, 64))))
 
 
+def clen8(I, c):
+    """UTF-8 length of a char.  With I.concrete_utf8 the length class of a symbolic char is decided by forking
+    (solver-checked, remembered for the path), so byte offsets stay concrete integers."""
+    if c.conc or not getattr(I, "concrete_utf8", False):
+        return char_len_utf8(c)
+    key = ("len8", str(c.v))
+    k = I.ctx.known_tags.get(key)
+    if k is None:
+        z = c.v
+        k = 1 + I.ctx.choose([z3.ULT(z, 0x80), z3.And(z3.UGE(z, 0x80), z3.ULT(z, 0x800)),
+                              z3.And(z3.UGE(z, 0x800), z3.ULT(z, 0x10000)), z3.UGE(z, 0x10000)])
+        I.ctx.known_tags[key] = k
+    return k
+
+
 def char_len_utf16(c):
     if c.conc:
         return 1 if c.v < 0x10000 else 2
@@ -933,7 +951,7 @@ def str_byte_offsets(I, s):
     """List of Int byte offsets of each char boundary (len(chars)+1 entries)."""
     cs = s.chars()
     offs = [Int(0, 64, False)]
-    lens = [char_len_utf8(c) for c in cs]
+    lens = [clen8(I, c) for c in cs]
     for i in range(len(cs)):
         offs.append(_sum64(lens[:i + 1]))
     return offs
@@ -1009,7 +1027,7 @@ def in_ranges(z, ranges):
 def char_method(I, c, name, args, node):
     used("char::" + name)
     if name == "len_utf8":
-        r = char_len_utf8(c)
+        r = clen8(I, c)
         return Int(r, 64, False) if isinstance(r, int) else int_from_z(r, 64, False)
     if name == "len_utf16":
         r = char_len_utf16(c)
@@ -1143,6 +1161,11 @@ def str_method(I, s, name, args, node):
         return False if name == "contains" else NONE
     if name == "split_once":
         p = _as_str(I, a[0], node)
+        if s.conc and p.conc:
+            if p.s in s.s:
+                x, y = s.s.split(p.s, 1)
+                return some((Str(x), Str(y)))
+            return NONE
         cs, pc = s.chars(), p.chars()
         for i in range(0, len(cs) - len(pc) + 1):
             if I.branch(str_starts_with_at(I, cs, i, pc)):
@@ -1221,4 +1244,7 @@ def str_method(I, s, name, args, node):
 
 
 def lazy_static_method(I, r, name, args, node):
+    nat = I.natives.get("LazyStatic::" + name)
+    if nat is not None:
+        return nat(I, [r] + list(args), node)
     I.unsupported(f"lazy_static {r.fields['name']}.{name}() needs a native model", node)
